@@ -124,7 +124,8 @@ def close(a, b):
     if math.isnan(a) or math.isnan(b):
         return math.isnan(a) and math.isnan(b)
     if math.isinf(a) or math.isinf(b):
-        return a == b or (abs(a) > 1e38 and abs(b) > 1e38 and (a > 0) == (b > 0))      # float32 overflows where binary64 does not
+        # `a` is the implementation's (binary32) value, `b` the model's (binary64): binary32 overflows to ±inf where binary64 is still finite — never the other way round
+        return a == b or (math.isinf(a) and abs(b) > 1e38 and (a > 0) == (b > 0))
     return abs(a - b) <= 1e-4 * max(1.0, abs(a), abs(b))
 
 
@@ -182,6 +183,11 @@ def run(ctx):
                        {"shape": shape, "data": [0.5] * n, "mask": [1] * n, "plain": True}]
                 for piece in (0, 1, 2):
                     cases.append((env, [{"k": "narrow", "r": 0, "axis": axis, "start": sum(sizes[:piece]), "len": sizes[piece], "split": sizes, "piece": piece}, {"k": "bin_scalar", "f": "add", "r": 3, "c": mtexec.f64_bits(2.0)}]))
+        # planned, every run: ±inf and NaN at VALID positions (a division by zero), then fix_nan (NaN → 0, nothing else), a strict sum and the statistics
+        envz = [{"shape": [2, 3], "data": [1.0, -2.0, 0.0, 3.0, 0.0, -1.0], "mask": [1, 1, 1, 1, 0, 1]}, {"shape": [2, 3], "data": [0.0, 0.0, 0.0, 2.0, 0.0, 4.0], "mask": [1, 1, 1, 1, 1, 0]},
+                {"shape": [2, 3], "data": [0.5] * 6, "mask": [1] * 6, "plain": True}]
+        tail = [{"k": "sum", "r": 4, "dim": 0}] + ([{"k": "mean", "r": 4, "lead": 1}] if fw == "tf" else [{"k": "bin_scalar", "f": "mul", "r": 4, "c": mtexec.f64_bits(2.0)}])
+        cases.append((envz, [{"k": "bin", "f": "div", "r1": 0, "r2": 1}, {"k": "fix_nan", "r": 3}] + tail))
         for _ in range(ctx.pick(250, 3000)):
             env, prog = gen_program(rng, fw, maxlen)
             if prog:
